@@ -534,7 +534,7 @@ def _run_history(chk: Check, hist: dict[str, Any], job: dict[str, Any]) -> None:
                     m = models[leg]
                     frac = clock.frac if leg == "defclock" else 0.0
                     want = m.verify([token], clock.wall, clock.mono)
-                    boundary = leg == "defclock" and frac > 0 and _taint_if_expiry_boundary(m, token, clock.wall)
+                    boundary = leg == "defclock" and frac > 0 and _taint_if_expiry_boundary(m, token, clock.wall, clock.mono)
                     got_kind, got_reason, got_claims = "?", "?", None
                     try:
                         if leg == "direct":
@@ -567,7 +567,7 @@ def _run_history(chk: Check, hist: dict[str, Any], job: dict[str, Any]) -> None:
                 m = models[mode]
                 uses_now = mode == "allow" or require_uses_now
                 want = m.verify(wsgi_instances, clock.wall, clock.mono)
-                boundary = (not uses_now) and clock.frac > 0 and len(wsgi_instances) == 1 and _taint_if_expiry_boundary(m, wsgi_instances[0], clock.wall)
+                boundary = (not uses_now) and clock.frac > 0 and len(wsgi_instances) == 1 and _taint_if_expiry_boundary(m, wsgi_instances[0], clock.wall, clock.mono)
                 hdrs: list[tuple[str, str]] = [("Content-Type", httpdrv.ARROW_CT)]
                 accept_html = si % 5 == 4
                 if accept_html:
@@ -675,7 +675,7 @@ def _run_history(chk: Check, hist: dict[str, Any], job: dict[str, Any]) -> None:
         plog.setLevel(old_level)
 
 
-def _taint_if_expiry_boundary(model: Any, token: str, wall: int) -> bool:
+def _taint_if_expiry_boundary(model: Any, token: str, wall: int, mono: float) -> bool:
     """True when floor(now) - ts == skew for a parseable token of a known kid (the rounding of a fractional
     clock then decides expired/not).  The presentation is not judged; its nonce is tainted in the model because
     the real cache may or may not have remembered it."""
@@ -685,7 +685,7 @@ def _taint_if_expiry_boundary(model: Any, token: str, wall: int) -> bool:
     kid, ts, nonce, _m = parsed
     if kid not in model.secrets or wall - int(ts) != model.skew:
         return False
-    model.taint(nonce)  # unknown whether remembered: verdicts depending on it are unjudged
+    model.taint(nonce, mono)  # unknown whether remembered: verdicts depending on it are unjudged
     return True
 
 
@@ -860,7 +860,7 @@ def run_shard(job: dict[str, Any]) -> dict[str, Any]:
 
 def _jobs(tier: str, seed: int) -> list[dict[str, Any]]:
     nsh = 16 if tier == "quick" else 96  # fixed: job seeds and history indices do not depend on the pool size
-    total_hist = 2400 if tier == "quick" else 60_000
+    total_hist = 1600 if tier == "quick" else 40_000
     per = max(1, total_hist // nsh)
     jobs = []
     for i in range(nsh):
